@@ -5,10 +5,10 @@ p=$1; shift; checks=${*:-$p}
 for d in /tmp/wt-$p/_out/m*; do
   [ -f "$d/patch.diff" ] || continue
   i=$(basename $d); id=M-$p-$i
-  conf=$(/verif/tools/confirm_mutant.sh "$d" 2>&1 | tail -1)
+  conf=$(${VERIF_SNAP:-/verif}/tools/confirm_mutant.sh "$d" 2>&1 | tail -1)
   res=""
   for c in $checks; do
-    out=$(KEEP_REPLAY=/tmp/mutreplays/$id /verif/tools/runmutant.sh "$d/patch.diff" "$c" quick 2>&1)
+    out=$(KEEP_REPLAY=/tmp/mutreplays/$id ${VERIF_SNAP:-/verif}/tools/runmutant.sh "$d/patch.diff" "$c" quick 2>&1)
     rc=$(echo "$out" | grep -o 'exit=[0-9]*' | tail -1)
     first=$(echo "$out" | grep '^violation' | head -2 | cut -c1-160 | tr '\n' ';')
     res="$res $c:$rc [$first]"
